@@ -826,7 +826,7 @@ fn go_session(ctx: &Ctx, idx: usize, seeds: &[String], prop: &str) {
         c14_isready_storm(ctx, idx, &mut e, &g, &mut rng);
         return;
     }
-    let gos = 1 + rng.below(5);
+    let gos = 1 + rng.below(6);
     for k in 0..gos {
         let p = g.last().clone();
         let legal: Vec<String> = p.legal_moves().iter().map(Mv::uci).collect();
@@ -840,6 +840,14 @@ fn go_session(ctx: &Ctx, idx: usize, seeds: &[String], prop: &str) {
                 0..=3 => l.depth = Some(1 + rng.below(if p.sq.iter().filter(|&&x| x != 0).count() <= 8 { 6 } else { 4 })),
                 4 => l.nodes = Some(*rng.pick(&[200, 2000, 20000, 50000])),
                 _ => l.movetime = Some(*rng.pick(&[20, 60, 150])),
+            }
+            l
+        } else if k == 0 && rng.chance(1, 2) {
+            let mut l = Limits::default();
+            match rng.below(3) {
+                0 => l.depth = Some(3 + rng.below(2)),
+                1 => l.nodes = Some(*rng.pick(&[5_000, 20_000, 50_000])),
+                _ => l.movetime = Some(*rng.pick(&[50, 100, 200])),
             }
             l
         } else {
@@ -871,18 +879,56 @@ fn go_session(ctx: &Ctx, idx: usize, seeds: &[String], prop: &str) {
             // no answer: the search thread may still be running or dead; start a fresh engine
             return;
         };
-        // continue the game with the engine's move (if legal) and go again
-        if let Some(m) = p.find_uci(&bm) {
-            let np = p.make(&m);
+        // how the game goes on before the next go: the engine's move and a reply (as in play), the
+        // engine's move alone, two moves that are NOT the engine's choice (the GUI went another way;
+        // the reply prefers checks), or no move at all (same position searched again)
+        let Some(engine_move) = p.find_uci(&bm) else { break };
+        let mut steps: Vec<Mv> = Vec::new();
+        let pick_reply = |rng: &mut Rng, q: &Pos| -> Option<Mv> {
+            let lm = q.legal_moves();
+            if lm.is_empty() {
+                return None;
+            }
+            let checks: Vec<Mv> = lm.iter().filter(|m| { let r = q.make(m); r.in_check(r.stm) }).copied().collect();
+            if !checks.is_empty() && rng.chance(2, 3) {
+                Some(*rng.pick(&checks))
+            } else {
+                Some(*rng.pick(&lm))
+            }
+        };
+        match rng.below(10) {
+            0..=3 => {
+                steps.push(engine_move);
+                if let Some(r) = pick_reply(&mut rng, &p.make(&engine_move)) {
+                    steps.push(r);
+                }
+            }
+            4..=5 => steps.push(engine_move),
+            6..=8 => {
+                let lm = p.legal_moves();
+                let other: Vec<Mv> = lm.iter().filter(|m| m.uci() != bm).copied().collect();
+                let m1 = if other.is_empty() { engine_move } else { *rng.pick(&other) };
+                steps.push(m1);
+                if let Some(r) = pick_reply(&mut rng, &p.make(&m1)) {
+                    steps.push(r);
+                }
+            }
+            _ => {}
+        }
+        let mut ok = true;
+        for m in steps {
+            let np = g.last().make(&m);
             if np.legal_moves().is_empty() || np.half >= 98 {
+                ok = false;
                 break;
             }
             g.moves.push(m);
             g.positions.push(np);
-            e.send(&g.command());
-        } else {
+        }
+        if !ok {
             break;
         }
+        e.send(&g.command());
     }
     e.send("quit");
     let _ = e.wait_exit(1_000);
